@@ -20,6 +20,7 @@ REJECTIONS = {"DriverConflict", "CombinationalCycle", "DomainError", "NameError"
               "other:DomainRequirementFailed"}
 F_ALIAS = "F9"       # simulator loses a write through an aliased concatenation under a slice/part-select
 F_WINDOW = "F25"     # (fixed) emit_assign window not clipped at a short array element
+F_DUPTF = "F29"      # a write port listed twice in transparent_for: TRANSPARENCY_MASK built with sum() instead of |
 F_SPART = "F27"      # part-select of a signed value: `$shift` shifts zeros in above max(A_WIDTH, Y_WIDTH), the simulator the sign
 
 
@@ -79,7 +80,7 @@ def esc(s):
 
 
 def build(seed, opts, drop=frozenset()):
-    from .. import gen_design
+    from .. import gen_hier as gen_design
     rng = random.Random(seed)
     hist = {}
     b = gen_design.gen_design(rng, hist, instances=False, iobufs=False, all_ports=True, drop=drop, **opts)
@@ -119,7 +120,7 @@ def make_stimulus(rng, b, drive, n_events):
     return events
 
 
-def simulate(b, events, observed):
+def simulate(b, events, observed, observed_mem=()):
     from amaranth.hdl import Cat
     from amaranth.sim import Simulator
     sim = Simulator(b.top)
@@ -132,7 +133,8 @@ def simulate(b, events, observed):
 
     async def tb(ctx):
         def obs():
-            rows.append([ctx.get(b.pool[i]) & ((1 << len(b.pool[i])) - 1) for i in observed])
+            rows.append([ctx.get(b.pool[i]) & ((1 << len(b.pool[i])) - 1) for i in observed]
+                        + [ctx.get(b.mem_obs[j]) & ((1 << len(b.mem_obs[j])) - 1) for j in observed_mem])
         obs()
         for ev in events:
             sigs = [sig_of(k, i) for k, i, _v in ev]
@@ -154,7 +156,7 @@ def design_case(seed, opts, n_events=None, drop=frozenset(), events=None):
     from amaranth.hdl import Fragment
     from amaranth.back import rtlil
     case = {"seed": seed, "opts": opts,
-            "stream": "f9" if opts.get("allow_f9") else "f25" if opts.get("allow_f25") else "main"}
+            "stream": "f9" if opts.get("allow_f9") else "f25" if opts.get("allow_f25") else "dup_tf" if opts.get("dup_tf") else "main"}
     try:
         b1, hist, _ = build(seed, opts, drop)
         b2, _h, rng = build(seed, opts, drop)
@@ -163,7 +165,7 @@ def design_case(seed, opts, n_events=None, drop=frozenset(), events=None):
         case["hist"] = {}
         return case
     case["hist"] = hist
-    case["shapes"] = [c for c, on in ((F_ALIAS, b1.has_f9), (F_WINDOW, b1.has_f25)) if on]
+    case["shapes"] = [c for c, on in ((F_ALIAS, b1.has_f9), (F_WINDOW, b1.has_f25), (F_DUPTF, b1.has_dup_tf)) if on]
     try:
         top_fragment = Fragment.get(b1.top, None)
         if has_signed_part(top_fragment):
@@ -185,6 +187,12 @@ def design_case(seed, opts, n_events=None, drop=frozenset(), events=None):
             path = name_map[s]
             observed.append(i)
             points.append(" ".join("\\" + x for x in path[1:]))
+    # ... and the data outputs of memory read ports
+    observed_mem = []
+    for j, s in enumerate(b1.mem_obs):
+        if s in name_map:
+            observed_mem.append(j)
+            points.append(" ".join("\\" + x for x in name_map[s][1:]))
     # inputs that are top-level ports can be driven
     # (a signal with an owner for which the statement generator produced no assignment is an input too, so the
     # direction is read off the emitted top module)
@@ -227,10 +235,10 @@ def design_case(seed, opts, n_events=None, drop=frozenset(), events=None):
                        f"(obs {' '.join(esc(p) for p in points)}))")
     case["events"] = events
     case["points"] = points
-    case["observed_names"] = [b1.pool[i].name for i in observed]
+    case["observed_names"] = [b1.pool[i].name for i in observed] + [b1.mem_obs[j].name for j in observed_mem]
     case["async"] = [k for _n, _c, _e, k in b1.domains]
     try:
-        case["sim"] = simulate(b2, events, observed)
+        case["sim"] = simulate(b2, events, observed, observed_mem)
     except Exception as e:
         case["sim_error"] = (errkind(e), (str(e) or repr(e))[:300])
     return case
@@ -300,6 +308,14 @@ def minimise(seed, opts, events, exe=EXE, budget=160):
     return best
 
 
+def report(chk, summary, replay):
+    """chk.violation, but a violation without a finding class is never lost to the cap on stored violations"""
+    before = len(chk.violations)
+    if chk.violation(summary, replay) and len(chk.violations) == before and not replay.get("classes"):
+        chk.violations.insert(0, (summary, replay))
+        chk.violations.pop()
+
+
 def parse_rows(s):
     return [[int(x) for x in row.split(",")] if row else [] for row in s.split(";")]
 
@@ -312,6 +328,8 @@ def judge(chk, case):
         chk.hist("constructs", k, v)
     if "generator_error" in case:
         chk.hist("outcome", "generator_error:" + case["generator_error"][0])
+        chk.extra["generator_errors"] = chk.extra.get("generator_errors", 0) + 1
+        chk.extra["generator_error_example"] = case["generator_error"][1]
         return
     if "error" in case:
         kind, msg, where = case["error"]
@@ -374,7 +392,7 @@ def judge(chk, case):
                                                     "rtlil": best["text"][:6000]}
                     except Exception as e:              # minimisation is best effort
                         replay2["minimise_error"] = repr(e)[:200]
-                chk.violation(
+                report(chk,
                     f"after event {t} ({ev}) signal {case['observed_names'][k]} (wire {case['points'][k]!r}) is {sr[k]} in the "
                     f"simulator but {mr[k]} in the RTLIL (stream {case['stream']}, design seed {case['seed']})", replay2)
                 chk.extra["undefined_in_rtlil"] = chk.extra.get("undefined_in_rtlil", 0) + undefined
@@ -429,10 +447,11 @@ def run(chk):
     witness_f27(chk)
     rng = chk.rng
     quick = chk.tier == "quick"
-    n_main = 800 if quick else 16000
-    n_side = 80 if quick else 1200
+    n_main = 600 if quick else 12000
+    n_side = 60 if quick else 800
     base = dict(memories=True, layouts=True)
-    plan = [(n_main, dict(base)), (n_side, dict(base, allow_f9=True)), (n_side, dict(base, allow_f25=True))]
+    plan = [(n_main, dict(base)), (n_side, dict(base, allow_f9=True)), (n_side, dict(base, allow_f25=True)),
+            (n_side, dict(base, dup_tf=True))]
     args = []
     for n, opts in plan:
         seeds = [rng.getrandbits(48) for _ in range(n)]
@@ -442,8 +461,11 @@ def run(chk):
         for cases in ex.map(job, args, chunksize=1):
             for c in cases:
                 judge(chk, c)
+    if chk.extra.get("generator_errors", 0) > 0.05 * sum(n for n, _o in plan):
+        chk.not_shown("the design generator itself fails on more than 5% of the seeds (nothing is being checked)",
+                      {"generator_errors": chk.extra["generator_errors"], "example": chk.extra.get("generator_error_example")})
     chk.cov["rule"] = (
-        "whole designs (harness/gen_design.py: module trees of depth <= 4, signals driven in one module and read in ancestors, "
+        "whole designs (harness/gen_hier.py: module trees of depth <= 4, signals driven in one module and read in ancestors, "
         "descendants and siblings, per-bit owners, partially driven / undriven / zero-width / private signals, expressions and "
         "statement trees of the C01/C02 generators, 1-3 clock domains pos/neg edge with sync, async or no reset, memories with "
         "sync/comb/transparent read ports and granular write ports; no Instances, no I/O buffers), each simulated for 5-40 "
